@@ -12,7 +12,7 @@ type Size interface {
 }
 
 type BlobSize struct {
-	Size counts.Count32
+	Size counts.Count64
 }
 
 type TreeSize struct {
@@ -61,7 +61,7 @@ func (s *TreeSize) addDescendent(filename string, s2 TreeSize) {
 func (s *TreeSize) addBlob(filename string, size BlobSize) {
 	s.MaxPathDepth.AdjustMaxIfNecessary(1)
 	s.MaxPathLength.AdjustMaxIfNecessary(counts.NewCount32(uint64(len(filename))))
-	s.ExpandedBlobSize.Increment(counts.Count64(size.Size))
+	s.ExpandedBlobSize.Increment(size.Size)
 	s.ExpandedBlobCount.Increment(1)
 }
 
@@ -228,8 +228,8 @@ func setPath(
 
 func (s *HistorySize) recordBlob(g *Graph, oid git.OID, blobSize BlobSize) {
 	s.UniqueBlobCount.Increment(1)
-	s.UniqueBlobSize.Increment(counts.Count64(blobSize.Size))
-	if s.MaxBlobSize.AdjustMaxIfNecessary(blobSize.Size) {
+	s.UniqueBlobSize.Increment(blobSize.Size)
+	if s.MaxBlobSize.AdjustMaxIfNecessary(counts.NewCount32(uint64(blobSize.Size))) {
 		setPath(g.pathResolver, &s.MaxBlobSizeBlob, oid, "blob")
 	}
 }
